@@ -247,14 +247,14 @@ func (c *compiler) evalAssignExpression(node *ast.AssignExpression) (interface{}
 }
 
 func (c *compiler) evalUserFunction(node *userFunction, args []ast.Expression) (interface{}, error) {
-	if len(args) < len(node.Parameters) {
-		return nil, fmt.Errorf("too few arguments in call to function (%d for %d)", len(args), len(node.Parameters))
+	if len(args) < len(node.parameters) {
+		return nil, fmt.Errorf("too few arguments in call to function (%d for %d)", len(args), len(node.parameters))
 	}
 
 	// all arguments are evaluated in the caller's scope before any
 	// parameter is bound
-	vals := make([]interface{}, len(node.Parameters))
-	for i := range node.Parameters {
+	vals := make([]interface{}, len(node.parameters))
+	for i := range node.parameters {
 		v, err := c.evalExpression(args[i])
 		if err != nil {
 			return nil, err
@@ -267,12 +267,12 @@ func (c *compiler) evalUserFunction(node *userFunction, args []ast.Expression) (
 	defer func() { c.ctx = octx }()
 
 	c.ctx = c.ctx.New()
-	for i, p := range node.Parameters {
+	for i, p := range node.parameters {
 		c.ctx.Set(p.Value, vals[i])
 	}
 
 	caller := c.curStmt
-	res, err := c.evalBlockStatement(node.Block)
+	res, err := c.evalBlockStatement(node.block)
 	if err != nil {
 		if node.program != c.program {
 			// the function was written in another template (the one that
@@ -315,7 +315,7 @@ func flattenReturn(ro returnObject, vals []interface{}) []interface{} {
 func (c *compiler) evalFunctionLiteral(node *ast.FunctionLiteral) (interface{}, error) {
 	params := node.Parameters
 	block := node.Block
-	return &userFunction{Parameters: params, Block: block, program: c.program}, nil
+	return &userFunction{parameters: params, block: block, program: c.program}, nil
 }
 
 func (c *compiler) evalPrefixExpression(node *ast.PrefixExpression) (interface{}, error) {
